@@ -95,21 +95,137 @@ func replayModel(eng *Eng, id string, o *Obligation) replayResult {
 	if tmpl == nil {
 		return replayResult{log: "no replay template for " + o.Fn + ": the obligation is reported without a concrete failing input"}
 	}
-	return tmpl.run(eng, o)
+	return tmpl.runModel(eng, o)
 }
 
+
+// Replay templates: /verif/replay/templates/*.go.tmpl, a Go test with header lines
+//   // fsv:fn <suffix of the function name under contract>
+//   // fsv:pkg <package dir relative to the repo root>
+//   // fsv:run <test name>
+//   // fsv:need A C P ...     (witness names that must be present in the model)
+// and placeholders {{NAME}} replaced by the model's value of the witness NAME.
 type replayTemplate struct {
-	fn  string
-	run func(eng *Eng, o *Obligation) replayResult
+	fn, pkg, run string
+	need         []string
+	text         string
+	race         bool
 }
 
-var replayTemplates []*replayTemplate
+func loadReplayTemplates() []*replayTemplate {
+	var out []*replayTemplate
+	files, _ := filepath.Glob(filepath.Join(verifDir, "replay", "templates", "*.go.tmpl"))
+	if len(files) == 0 {
+		files, _ = filepath.Glob(filepath.Join("/verif", "replay", "templates", "*.go.tmpl"))
+	}
+	for _, f := range files {
+		data, err := os.ReadFile(f)
+		if err != nil {
+			continue
+		}
+		t := &replayTemplate{text: string(data)}
+		for _, l := range strings.Split(string(data), "\n") {
+			l = strings.TrimSpace(l)
+			switch {
+			case strings.HasPrefix(l, "// fsv:fn "):
+				t.fn = strings.TrimSpace(l[len("// fsv:fn "):])
+			case strings.HasPrefix(l, "// fsv:pkg "):
+				t.pkg = strings.TrimSpace(l[len("// fsv:pkg "):])
+			case strings.HasPrefix(l, "// fsv:run "):
+				t.run = strings.TrimSpace(l[len("// fsv:run "):])
+			case strings.HasPrefix(l, "// fsv:need "):
+				t.need = strings.Fields(l[len("// fsv:need "):])
+			case strings.HasPrefix(l, "// fsv:race"):
+				t.race = true
+			}
+		}
+		if t.fn != "" {
+			out = append(out, t)
+		}
+	}
+	return out
+}
 
 func findReplayTemplate(o *Obligation) *replayTemplate {
-	for _, t := range replayTemplates {
+	for _, t := range loadReplayTemplates() {
 		if strings.HasSuffix(o.Fn, t.fn) {
 			return t
 		}
 	}
 	return nil
+}
+
+// smtIntToGo converts an SMT integer / real / bool literal to Go source text.
+func smtValToGo(v string) (string, bool) {
+	v = strings.TrimSpace(v)
+	neg := false
+	for strings.HasPrefix(v, "(- ") && strings.HasSuffix(v, ")") {
+		v = strings.TrimSpace(v[3 : len(v)-1])
+		neg = !neg
+	}
+	if v == "true" || v == "false" {
+		return v, true
+	}
+	if strings.HasPrefix(v, "(/ ") && strings.HasSuffix(v, ")") {
+		parts := strings.Fields(v[3 : len(v)-1])
+		if len(parts) == 2 {
+			r := "(" + parts[0] + "/" + parts[1] + ")"
+			if neg {
+				r = "-" + r
+			}
+			return r, true
+		}
+		return "", false
+	}
+	if strings.HasPrefix(v, "#x") {
+		return "0x" + v[2:], true
+	}
+	if strings.HasPrefix(v, "(fp ") || strings.HasPrefix(v, "(_ ") {
+		return "", false
+	}
+	for _, c := range v {
+		if !(c >= '0' && c <= '9' || c == '.') {
+			return "", false
+		}
+	}
+	if v == "" {
+		return "", false
+	}
+	if neg {
+		v = "-" + v
+	}
+	return v, true
+}
+
+func (tp *replayTemplate) runModel(eng *Eng, o *Obligation) replayResult {
+	named := map[string]string{}
+	for term, val := range o.Result.Model {
+		if n, ok := o.task.modelNames[term]; ok {
+			named[n] = val
+		}
+	}
+	text := tp.text
+	var log strings.Builder
+	log.WriteString("model (witness values):\n")
+	for _, n := range tp.need {
+		raw, ok := named[n]
+		if !ok {
+			return replayResult{log: "model has no value for witness " + n}
+		}
+		gv, ok := smtValToGo(raw)
+		if !ok {
+			return replayResult{log: "model value of " + n + " cannot be rendered in Go: " + raw}
+		}
+		fmt.Fprintf(&log, "  %s = %s\n", n, gv)
+		text = strings.ReplaceAll(text, "{{"+n+"}}", gv)
+	}
+	tmp, err := os.MkdirTemp("", "fsv-replay-")
+	if err != nil {
+		return replayResult{log: err.Error()}
+	}
+	defer os.RemoveAll(tmp)
+	res := runOverlayTestData(eng.repo, []byte(text), tp.pkg, tp.run, tp.race, tmp)
+	log.WriteString(res.log)
+	log.WriteString("\n--- replay test source ---\n" + text)
+	return replayResult{failed: res.failed, log: log.String()}
 }
